@@ -2,7 +2,8 @@
    The ledger types are data (Ledger/Schemas.v) for one schema-directed codec (Codec/Schema.v);
    the theorems below hold for EVERY schema-valid value of EVERY listed type, for every nesting depth
    of scripts / Plutus data / metadata, with arbitrary bytes following the encoding. *)
-From CSL Require Import Base.Prelude Base.Hex Cbor.Head Codec.Schema Codec.SchemaProofs Ledger.Schemas Ledger.SchemasProofs.
+From CSL Require Import Base.Prelude Base.Hex Cbor.Head Codec.Schema Codec.SchemaProofs Codec.SchemaApi Codec.SchemaApiProofs
+  Ledger.Schemas Ledger.SchemasProofs.
 
 (* the generic theorem: one proof for all schemas *)
 Theorem C01_schema_roundtrip : forall s v rest,
@@ -11,23 +12,68 @@ Proof. exact schema_roundtrip. Qed.
 Print Assumptions C01_schema_roundtrip.
 
 (* decoding the serialized bytes of any value of any ledger type succeeds and yields the original *)
-Theorem C01_roundtrip : forall d s, In s (ledger_schemas d) ->
+Theorem C01_roundtrip : forall d s, In s (ledger_schemas d ++ ledger_schemas_more d) ->
   forall v rest, wfv s v = true -> dec s (enc s v ++ rest) = Ok (v, rest).
 Proof.
   intros d s Hin v rest Hv. apply schema_roundtrip; [|exact Hv].
-  exact (proj1 (Forall_forall _ _) (ledger_schemas_wf d) s Hin).
+  apply in_app_or in Hin as [Hin|Hin].
+  - exact (proj1 (Forall_forall _ _) (ledger_schemas_wf d) s Hin).
+  - exact (proj1 (Forall_forall _ _) (ledger_schemas_more_wf d) s Hin).
 Qed.
 Print Assumptions C01_roundtrip.
 
 (* re-encoding the decoded value gives exactly the same bytes *)
-Theorem C01_reencode : forall d s, In s (ledger_schemas d) ->
+Theorem C01_reencode : forall d s, In s (ledger_schemas d ++ ledger_schemas_more d) ->
   forall v v' rest rest', wfv s v = true -> dec s (enc s v ++ rest) = Ok (v', rest') ->
   enc s v' = enc s v /\ rest' = rest.
 Proof.
   intros d s Hin v v' rest rest' Hv H. apply schema_reencode; [|exact Hv|exact H].
-  exact (proj1 (Forall_forall _ _) (ledger_schemas_wf d) s Hin).
+  apply in_app_or in Hin as [Hin|Hin].
+  - exact (proj1 (Forall_forall _ _) (ledger_schemas_wf d) s Hin).
+  - exact (proj1 (Forall_forall _ _) (ledger_schemas_more_wf d) s Hin).
 Qed.
 Print Assumptions C01_reencode.
+
+(* ---- values built through the public API (not necessarily in the image of the decoders) ----
+   [wfa] admits an optional collection that is present but empty; [norm] maps such a field to absent
+   ("an empty optional collection counts as absent because that is how the wire format writes it").
+   For every ledger type (the original table and the stand-alone member types): decoding the bytes of an
+   API-buildable value succeeds and yields its normalisation ... *)
+Theorem C01_api_roundtrip : forall d s, In s (ledger_schemas d ++ ledger_schemas_more d) ->
+  forall v rest, wfa s v = true -> dec s (enc s v ++ rest) = Ok (norm s v, rest).
+Proof.
+  intros d s Hin v rest Hv. apply api_roundtrip; [|exact Hv].
+  apply in_app_or in Hin as [Hin|Hin].
+  - exact (proj1 (Forall_forall _ _) (ledger_schemas_wf d) s Hin).
+  - exact (proj1 (Forall_forall _ _) (ledger_schemas_more_wf d) s Hin).
+Qed.
+Print Assumptions C01_api_roundtrip.
+
+(* ... re-encoding the decoded value gives exactly the same bytes, and the decoded value is a fixed point ... *)
+Theorem C01_api_reencode : forall d s, In s (ledger_schemas d ++ ledger_schemas_more d) ->
+  forall v, wfa s v = true ->
+  enc s (norm s v) = enc s v /\ wfv s (norm s v) = true /\ norm s (norm s v) = norm s v.
+Proof.
+  intros d s _ v Hv. split; [apply norm_enc; exact Hv|]. split; [apply norm_wfv; exact Hv|apply norm_idem; exact Hv].
+Qed.
+Print Assumptions C01_api_reencode.
+
+(* ... and the normalisation is nothing but that: every value in the decoders' image is API-buildable and is its own
+   normal form (so C01_roundtrip is the special case of C01_api_roundtrip on those values) *)
+Theorem C01_norm_only_empties : forall s v, wfv s v = true -> wfa s v = true /\ norm s v = v.
+Proof. intros s v H. split; [apply wfv_wfa; exact H|apply norm_id; exact H]. Qed.
+Print Assumptions C01_norm_only_empties.
+
+(* non-vacuity of the API theorems: a body whose required_signers is set to an empty set is API-buildable, is NOT in
+   the decoders' image, normalises to the body without the field, and is written with a 3-entry map *)
+Example C01_api_nonvacuous :
+  let x := VStruct [Some (VList []); Some (VList []); Some (VNat 0%N); None; None; None; None; None; None; None; None;
+                    None; Some (VList []); None; None; None; None; None; None; None; None] in
+  let y := VStruct [Some (VList []); Some (VList []); Some (VNat 0%N); None; None; None; None; None; None; None; None;
+                    None; None; None; None; None; None; None; None; None; None] in
+  wfa (TransactionBody 1) x = true /\ wfv (TransactionBody 1) x = false /\ norm (TransactionBody 1) x = y /\
+  enc (TransactionBody 1) x = [163; 0; 217; 1; 2; 128; 1; 128; 2; 0]%N.
+Proof. cbv zeta. repeat split; vm_compute; reflexivity. Qed.
 
 (* the hex entry points are the byte entry points composed with a lossless hex codec *)
 Theorem C01_hex : forall bs, bytes_ok bs -> unhex (hex bs) = Some bs.
@@ -46,6 +92,6 @@ Example C01_nonvacuous :
   let v := VStruct [Some (VList [VList [VBytes (repeat 7%N 32); VNat 0%N]]); Some (VList []); Some (VNat 170000%N);
                     Some (VNat 5%N); None; None; None; None; None; None; None; None; None; None; None; None; None;
                     None; None; None; None] in
-  wfv (TransactionBody 1) v = true /\ In (TransactionBody 1) (ledger_schemas 1) /\
+  wfv (TransactionBody 1) v = true /\ In (TransactionBody 1) (ledger_schemas 1 ++ ledger_schemas_more 1) /\
   firstn 6 (enc (TransactionBody 1) v) = [164; 0; 217; 1; 2; 129]%N.
-Proof. cbv zeta. split; [vm_compute; reflexivity|]. split; [|vm_compute; reflexivity]. unfold ledger_schemas. cbn. tauto. Qed.
+Proof. cbv zeta. split; [vm_compute; reflexivity|]. split; [|vm_compute; reflexivity]. apply in_or_app. left. unfold ledger_schemas. cbn. tauto. Qed.
